@@ -370,6 +370,12 @@ func (u *Unit) invokeModel(st *State, fr *Frame, in *ssa.Call, recv IfaceV, m *t
 			s := u.freshVal(st, sig.Results().At(0).Type(), "keybytes", false).(SliceV)
 			u.assume(Eq(s.Len, u.ifaceLen(st, key)))
 			u.assume(Implies(Gt(s.Len, IntLit(0)), Neq(s.Blk, IntLit(0))))
+			if bound, ok := u.ifBound[key]; ok {
+				u.assume(Lt(s.Blk, bound)) // the key existed before that point
+			} else {
+				u.assume(Lt(s.Blk, Add(st.wm, IntLit(int64(st.nalloc)))))
+			}
+			u.blkInfo[s.Blk.S] = blkMeta{base: u.ifaceBase(st, key), epoch: len(st.order)}
 			st.memo["ifbytes:"+key] = s
 			return s, true
 		}
@@ -400,4 +406,14 @@ func (u *Unit) ifaceLen(st *State, key string) *Term {
 	l = WithBounds(l, big.NewInt(0), MaxLen)
 	st.memo["iflen:"+key] = l
 	return l
+}
+
+// ifaceBase: allocation watermark at the time the opaque interface value was
+// first seen (its bytes are fresh relative to that point if the contract that
+// produced it says so).
+func (u *Unit) ifaceBase(st *State, key string) *Term {
+	if b, ok := u.ifBase[key]; ok {
+		return b
+	}
+	return u.alloc0
 }
